@@ -68,9 +68,9 @@ def retry_step(repo, run):
     loops = [st for st in walk_no_nested(call) if isinstance(st, ast.For)]
     for lp in loops:
         for c in [c for c in ast.walk(lp) if isinstance(c, ast.Call) and dotted(c.func) == "self.step"]:
-            arg = c.args[4] if len(c.args) > 4 else None
+            arg = m.step_arg(c)
             if arg is None:
-                raise AnalysisError("retry self.step call has no positional step argument")
+                raise AnalysisError("retry self.step call has no step argument")
             k = ke.kind(arg)
             names = {n.id for n in ast.walk(arg) if isinstance(n, ast.Name)}
             has_max = any(isinstance(x, ast.Call) and fname(x) in ("maximum", "max", "fmax") for x in ast.walk(arg))
@@ -269,10 +269,13 @@ def richardson_retry(repo, run):
         while not isinstance(st, ast.stmt):
             st = st._parent
         guard = st._parent
-        ok = isinstance(guard, ast.If) and src(guard.test) == redo_name and st in guard.body
+        # the retry executes exactly when the redo flag is set (if/else or early-return arrangement)
+        from ..sym import path_condition, equivalent, tree_atoms
+        pc, _bt = path_condition(st, fn, guards=True)
+        ok = [a.split("@")[0] for a in tree_atoms(pc)] == [redo_name] and equivalent(pc, lambda asg: asg[redo_name])[0]
         # result of the retry replaces (timestep, (dTime, dState))
         ok = ok and isinstance(st, ast.Assign) and "self.dTime" in src(st.targets[0]) and "self.dState" in src(st.targets[0])
-    run.judged(rid, "retry: %s under `%s`" % (src(rec[0])[:80] if rec else None, src(guard.test) if isinstance(guard, ast.If) else None), ok=ok)
+    run.judged(rid, "retry: %s executes iff `%s`" % (src(rec[0])[:80] if rec else None, redo_name), ok=ok)
     if not ok:
         run.report("C05.5", ITY, rec[0] if rec else fn, "a step rejected by the controller is not retried by a recursive call whose result replaces the rejected one", text="Richardson retry structure")
         return
